@@ -100,7 +100,7 @@ prop("C06", quick={"runs": 8000}, thorough={"runs": 100000000, "budget_s": 600},
      rules=["C06.R1 the final store exists and its TTL = reference fold", "C06.R2 stale re-store uses UpdateTTL", "C06.R3 caller context TTL after Get",
             "C06.R4 background build context: no Err, no deadline, Done never fires, values visible", "C06.R5 SkipRead rebuilds and stores"],
      probes=["builder_communicated_ttl", "background_build_ctx_observed", "background_build_with_cancelled_caller_ctx",
-             "stale_refresh_write", "lone_skipread_get", "shared_request_context", "rebuilt_value_equal_to_stale_one"])
+             "stale_refresh_write", "lone_skipread_get", "skipread_get_with_cached_failure", "shared_request_context", "rebuilt_value_equal_to_stale_one"])
 
 BE_RULE = ("Backend scenarios (keys incl. empty, 1-byte, 300-byte, binary, common-prefix and constructed xxhash64 collision "
            "families; unique value tokens, on the untyped backends carried as struct, slice, map, struct-with-slice or pointer; TTL modes default / unlimited / per-call positive / negative; SkipRead) are drawn from the "
@@ -173,10 +173,10 @@ prop("C15", quick={"runs": 9000}, thorough={"runs": 100000000, "budget_s": 600},
      rule=TR_RULE + "InvalidationIndex over 1-3 cache names with 1-3 deleters each (real backends behind a fault wrapper), generated label/key incidence structures "
      "(several labels per key, shared keys, repeated labelling, unused labels, labelled-but-absent keys, duplicated label arguments). A third of the runs are "
      "fault-free sequences; a third come in families of 12 sharing one structure while the failing Delete ordinal sweeps 0..11 (every delete position), each "
-     "followed by a fault-free retry; a third run AddLabels / AddCache / InvalidateByLabels / writes concurrently; every 12th run injects the failure while "
+     "followed by a fault-free retry (the same labels in one call, or one call per label); a third run AddLabels / AddCache / InvalidateByLabels / writes concurrently; every 12th run injects the failure while "
      "other tasks AddLabels concurrently and ends with a fault-free sweep over all labels.",
      rules=["C15.R1 labelled keys absent after nil", "C15.R2 unlabelled keys untouched", "C15.R3 count = entries really removed", "C15.R4 failure returned, no panic", "C15.R5 retry removes every labelled key"],
-     probes=["invalidate_ok", "invalidate_with_deleter_failure", "retry_after_failure", "concurrent_invalidate", "sweep_after_concurrent_failure"])
+     probes=["invalidate_ok", "invalidate_with_deleter_failure", "retry_after_failure", "retry_label_by_label", "concurrent_invalidate", "sweep_after_concurrent_failure"])
 prop("C17", quick={"runs": 12000}, thorough={"runs": 100000000, "budget_s": 600},
      rule="1-8 client tasks call Invalidate 1-4 times each with sleeps around SkipInterval (-1ns, exactly, +1ns) and a context that is live, already cancelled, past its deadline, or cancelled by the first callback; 0-5 callbacks yield / sleep simulated time while the "
      "Invalidator's mutex is held (cooperative lock table). Non-trivial: at least two calls; distinct = distinct (scenario, schedule signature).",
